@@ -32,8 +32,17 @@ Theorem C19_names : forall n : str,
 Proof. exact (fun n => conj (dataset_ok_is_xml_name n) (saveto_ok_is_xml_name n)). Qed.
 Print Assumptions C19_names.
 
+(* the dataset cell: an entities row without a list name (absent or empty cell) is rejected by the reader's own first check, and an
+   accepted cell holds a non-empty XML name; the check has no outcome beyond its four rejections and acceptance *)
+Theorem C19_dataset_cell : forall c : option str,
+  (dataset_cell_check c = None -> exists d, c = Some d /\ d <> [] /\ xml_name d = true /\ nochar DOT d = true /\ starts_with reserved_prefix d = false) /\
+  ((exists n, dataset_cell_check c = Some n /\ n <= 3) \/ dataset_cell_check c = None) /\
+  dataset_cell_check None = Some 0 /\ dataset_cell_check (Some []) = Some 0.
+Proof. exact (fun c => conj (dataset_cell_ok c) (conj (dataset_cell_total c) (conj eq_refl eq_refl))). Qed.
+Print Assumptions C19_dataset_cell.
+
 Theorem C19_source_constants :
-  ENTITIES_RESERVED_PREFIX = reserved_prefix /\ length ENTITY_REJECT_MESSAGES = 3 /\ length SAVETO_CHECK_ORDER = 7 /\ length DATASET_CHECK_ORDER = 3
+  ENTITIES_RESERVED_PREFIX = reserved_prefix /\ length ENTITY_REJECT_MESSAGES = 3 /\ length SAVETO_CHECK_ORDER = 7 /\ length DATASET_CHECK_ORDER = 4 /\ hd [] DATASET_CHECK_ORDER = [110;111;116;32;100;97;116;97;115;101;116]%N
   /\ ENTITY_COLUMNS = [a_dataset; [101;110;116;105;116;121;95;105;100]%N; [99;114;101;97;116;101;95;105;102]%N; [117;112;100;97;116;101;95;105;102]%N; s_label].
 Proof. repeat split; reflexivity. Qed.
 Print Assumptions C19_source_constants.
